@@ -140,7 +140,8 @@ class TableKeyParameter(Parameter):
     @property
     @override
     def is_settable(self) -> bool:
-        return True
+        # a statically selected table row cannot be changed
+        return self._table_row is None
 
     @override
     @final
@@ -174,6 +175,17 @@ class TableKeyParameter(Parameter):
                          f"{tkv} and {physical_value!r}")
 
             encode_state.table_keys[self.short_name] = physical_value
+
+        if self.table_row is not None:
+            # the table row is selected statically: its key is what
+            # gets encoded, a different row cannot be chosen
+            tkv = encode_state.table_keys.get(self.short_name)
+            if tkv is not None and tkv != self.table_row.short_name:
+                odxraise(
+                    f"Table key parameter '{self.short_name}' statically selects the "
+                    f"row '{self.table_row.short_name}', but '{tkv}' was specified", EncodeError)
+
+            encode_state.table_keys[self.short_name] = self.table_row.short_name
 
         pos = encode_state.cursor_byte_position
         if self.byte_position is not None:
